@@ -956,7 +956,8 @@ pub fn gen_text(rng: &mut Rng, keys: &[String]) -> String {
             }
             17 => {
                 // bracketed yomigana after kanji
-                s.push_str("東京");
+                // (also after ideographs outside the basic plane: 4 bytes each)
+                s.push_str(["東京", "東京", "京", "𠮟", "大𠮟", "𠮟𠮟"][rng.below(6)]);
                 s.push_str(if rng.chance(1, 2) { "(" } else { "（" });
                 for _ in 0..1 + rng.below(4) {
                     s.push_str(["と", "う", "き", "ょ"][rng.below(4)]);
@@ -1001,6 +1002,21 @@ pub fn oversized_text(rng: &mut Rng) -> String {
 /// at most 49,149 bytes but its NFKC form exceeds 65,535 bytes: rejected inside the first
 /// normalising input-text plugin (mid-pipeline)
 pub fn expanding_text(rng: &mut Rng) -> String {
+    if rng.chance(1, 3) {
+        // same-length one-to-one replacements by multi-byte characters first (upper case Cyrillic is lower-cased),
+        // then expansions: the rewritten text ends up a little above or below 65535 bytes
+        let k = 4000 + rng.below(8000);
+        let target = 65535usize + rng.below(2 * k) - k; // real length of the rewritten text
+        let m = target.saturating_sub(2 * k) / 12;
+        let mut s = String::with_capacity(2 * k + 3 * m + 8);
+        for _ in 0..k {
+            s.push('Ж');
+        }
+        for _ in 0..m {
+            s.push('㍿');
+        }
+        return s;
+    }
     // U+FDFA expands to 18 code points (33 bytes) under NFKC
     let n = 2000 + rng.below(200);
     let mut s = String::with_capacity(n * 3 + 8);
